@@ -183,7 +183,7 @@ REQUIRED_KEYS_SOFT_OK = {
     ("composeinfo.BaseProduct", "type"), ("composeinfo.Release", "type"), ("composeinfo.Release", "is_layered"),
     ("composeinfo.Release", "internal"),
     ("composeinfo.Variant", "variants"),
-    ("images.Image", "format"), ("images.Image", "subvariant"), ("images.Image", "unified"),
+    ("images.Image", "format"), ("images.Image", "unified"),
     ("images.Image", "additional_variants"),
     ("treeinfo.Release", "short"), ("treeinfo.Release", "is_layered"),
     ("treeinfo.Stage2", "mainimage"), ("treeinfo.Stage2", "instimage"),
